@@ -28,7 +28,8 @@ Lines (tab separated, after the sequence number):
 results := `id:open:paid:received:matched` joined by `;`, every order of the sequence, ascending id.
 Prices are Dec raws.  After every op the model continues from the REAL resulting order states.
 
-Monitors (evaluated on the REAL results): base_conserved, quote_dust, fill_within_limits,
+Monitors (evaluated on the REAL results): base_conserved (only where the D2 ghost `matchLossless`/`ticksLossless` predicts the
+loss; base_conserved_unexplained for any other disagreement with the prediction), quote_dust, fill_within_limits,
 fill_price_within_limit, matched_receives_positive (definitions: `Comdex.Amm.Mon*` in the model file's
 companion section below — they are the decidable forms of the theorems of `Props/C05.lean`).
 -/
@@ -93,10 +94,17 @@ def project (pre : List Order) (after : List Order) : List Order :=
 def resetFills (os : List Order) : List Order := os.map fun o => { o with fills := 0 }
 
 /-- evaluate the monitors on real results -/
-def monitors (seq : String) (pre post : List Order) (q : Option Int) (outcome : String) (flags : List String) : List String :=
+def monitors (seq : String) (pre post : List Order) (q : Option Int) (outcome : String) (flags : List String)
+    (lossless : Bool := true) : List String :=
   let m0 := if outcome = "panic" then [s!"MON\t{seq}\tfill_within_limits"] else
             if monFillWithinLimits pre post then [] else [s!"MON\t{seq}\tfill_within_limits"]
-  let m1 := if monBaseConserved pre post then [] else [s!"MON\t{seq}\tbase_conserved"]
+  -- `lossless` is the ghost of `base_conserved_iff_lossless`, computed from the INPUT: it is false exactly on the books on which
+  -- defect D2 drops a remainder. Base coin not conserved where the ghost predicts it = the known finding `base_conserved`;
+  -- any disagreement between the real result and the prediction = `base_conserved_unexplained`.
+  let m1 := match monBaseConserved pre post, lossless with
+    | true, true => []
+    | false, false => [s!"MON\t{seq}\tbase_conserved"]
+    | _, _ => [s!"MON\t{seq}\tbase_conserved_unexplained"]
   let m2 := match q with
     | some q => if monQuoteDust pre post q then [] else [s!"MON\t{seq}\tquote_dust"]
     | none => if monUntouched pre post then [] else [s!"MON\t{seq}\tquote_dust"]
@@ -107,7 +115,8 @@ def monitors (seq : String) (pre post : List Order) (q : Option Int) (outcome : 
 
 /-- compare a model answer (already rendered) with the real one, then monitor the real one -/
 def finish (st : St) (seq : String) (modelHead : String) (modelPost : Option (List Order)) (implHead : String)
-    (outcome : String) (qcd : String) (res : String) (fillOp : Bool := false) (distOp : Bool := false) : St × List String :=
+    (outcome : String) (qcd : String) (res : String) (fillOp : Bool := false) (distOp : Bool := false)
+    (lossless : Bool := true) : St × List String :=
   let pre := st.orders
   let mpost := (modelPost.getD pre)
   let modelLine := s!"{modelHead}\t{showRes mpost}"
@@ -126,7 +135,7 @@ def finish (st : St) (seq : String) (modelHead : String) (modelPost : Option (Li
       else if distOp then
         (monitors seq pre real none outcome (realFlags res)).filter
           (fun m => m.endsWith "fill_within_limits" || m.endsWith "matched_receives_positive")
-      else monitors seq pre real q outcome (realFlags res)
+      else monitors seq pre real q outcome (realFlags res) lossless
     ({ st with orders := resetFills real }, d ++ mons)
 
 def handle (st : St) (seq : String) (f : List String) : St × List String :=
@@ -145,7 +154,9 @@ def handle (st : St) (seq : String) (f : List String) : St × List String :=
       match matchAtSinglePrice b p with
       | .panic => finish st seq s!"{mf}\tpanic\t-" none s!"{fma}\t{outcome}\t{qcd}" outcome qcd res
       | .noMatch => finish st seq s!"{mf}\tnomatch\t-" none s!"{fma}\t{outcome}\t{qcd}" outcome qcd res
-      | .ok b' q => finish st seq s!"{mf}\tok\t{q}" (some (project st.orders b'.orders)) s!"{fma}\t{outcome}\t{qcd}" outcome qcd res
+      | .ok b' q =>
+        let ll := match findMatchableAmount b p with | none => true | some x => ticksLossless b.sells x p
+        finish st seq s!"{mf}\tok\t{q}" (some (project st.orders b'.orders)) s!"{fma}\t{outcome}\t{qcd}" outcome qcd res (lossless := ll)
   | ["amm.op", "match", lp, dir, outcome, mp, qcd, res] =>
     match parseInt? lp with
     | none => (st, [s!"BAD\t{seq}\tmatch"])
@@ -159,6 +170,7 @@ def handle (st : St) (seq : String) (f : List String) : St × List String :=
         finish st seq s!"{md}\tnomatch\t-\t-" none s!"{dir}\t{outcome}\t{mp}\t{qcd}" outcome qcd res
       | .ok b' mpr q =>
         finish st seq s!"{md}\tok\t{mpr}\t{q}" (some (project st.orders b'.orders)) s!"{dir}\t{outcome}\t{mp}\t{qcd}" outcome qcd res
+          (lossless := matchLossless b lp)
   | ["amm.op", "dist", amt, p, outcome, qcd, res] =>
     match parseInt? amt, parseInt? p with
     | some amt, some p =>
@@ -191,7 +203,11 @@ def handle (st : St) (seq : String) (f : List String) : St × List String :=
       let (st', out) := match matchFirstBatch b prec with
         | .panic => finish st seq s!"{mf}\tpanic\t-" none s!"{fmp}\t{outcome}\t{qcd}" outcome qcd res
         | .noMatch => finish st seq s!"{mf}\tnomatch\t-" none s!"{fmp}\t{outcome}\t{qcd}" outcome qcd res
-        | .ok b' q => finish st seq s!"{mf}\tok\t{q}" (some (project st.orders b'.orders)) s!"{fmp}\t{outcome}\t{qcd}" outcome qcd res
+        | .ok b' q =>
+          let ll := match findMatchPrice (makeView b) prec with
+            | none => true
+            | some pr => match findMatchableAmount b pr with | none => true | some x => ticksLossless b.sells x pr
+          finish st seq s!"{mf}\tok\t{q}" (some (project st.orders b'.orders)) s!"{fmp}\t{outcome}\t{qcd}" outcome qcd res (lossless := ll)
       (st', out ++ pm)
   | ["amm.fmp", prec, r] =>
     match parseNat? prec with
